@@ -183,7 +183,9 @@ public:
         }
         else
         {
-            v /= vnorm;
+            // (v / vnorm divides by the real norm; v /= vnorm would convert it to Scalar first, and the
+            // complex division squares a tiny divisor)
+            v = v / vnorm;
         }
 
         // Compute H and f
